@@ -64,7 +64,17 @@ def money_sub(chk, rng, w, mode):
                                          num(rate_amt)]]}
         x = (2 * rng.randint(-300, 300) + 1) * w.quantum_of(src)
     prov = "constructed"
-    if rng.random() < 0.3:
+    r_prov = rng.random()
+    if r_prov < 0.15:
+        # a rate that is the product of two rates through a third currency
+        prov = "product"
+        rx = steps_body[0]["e"]
+        third = rng.choice([c for c in CURS if c not in (a, b)])
+        k2 = F(rng.randint(5, 200), 100)
+        steps_body[0] = {"id": "x", "k": "x", "e": OP(
+            "*", ["c", XR, [U(a), rx[2][1], U(third), rx[2][3]]],
+            ["c", XR, [U(third), ["i", 1], U(b), num(k2)]])}
+    elif r_prov < 0.45:
         # the same operations with a rate object that came out of
         # inverted() (as MoneyConverter.get_rate returns them towards the
         # base currency); judged against that object's own stored rate
@@ -292,7 +302,8 @@ def run(chk, R, tier, seed):
               "money|mismatch-div", "price|declared target",
               "price|undeclared target", "price|mismatching currency",
               "price|no-money", "price|order mul", "price|order rmul",
-              "price|order div", "worlds", "rate object|inverted"):
+              "price|order div", "worlds", "rate object|inverted",
+              "rate object|product"):
         chk.require(c)
     for mode in RM.MODES:
         chk.require("mode|%s|tie" % mode)
